@@ -183,6 +183,8 @@ def rsa_cases(rng, tier, pad, bits_list):
                                  "em=" + (b"\xff" + h + b"\x00").hex(), "em=" + (b"\xff" + h + rmsg(rng, 4)).hex(),
                                  "em=" + (b"\xff" + h[:-1]).hex(), "em=" + (b"\xff\xff" + h).hex(), "em=" + h.hex()]
                     muts += ["f=%d:%s" % (1 - flag, hx(h if flag == 0 else m)), "f=%d:%s" % (1 - flag, hx(m))]
+                    if flag == 0 and not brief:
+                        muts += ["f=1:.", "f=1:" + hx(h[:31]), "f=1:" + hx(h + b"\x00")]   # digest-length variants in pre-hashed mode
                 muts += msg_muts(rng, m, 1 if quick else 4)[: (3 if quick else 10)]
                 if pad == "pss" and (j < 2 or not quick):
                     muts.append("emtop")
